@@ -259,7 +259,7 @@ def tie(ctx):
         stats["with_indel_table"] += bool(inst["indel_desc"])
         stats["copies_%d" % sum(inst["cn_sol"].solution.values())] += 1
     return {"families": fam, "violations": violations, "evaluations": len(insts), "distinct_nontrivial": len(distinct),
-            "rule": "evidence tables planted from 1-4 catalogued alleles of toy/generated/shipped genes under random structures with multiplicative noise, spurious and dropped variants, optional indel table, thresholds/gap/novel penalty varied; non-trivial = more than one candidate allele survives the filter; distinct by hash of the instance description",
+            "rule": "evidence tables planted from 1-4 catalogued alleles of toy/generated (half of them with a deletion-insertion variant)/shipped genes under random structures with multiplicative noise, spurious and dropped variants, optional indel table, thresholds/gap/novel penalty varied; non-trivial = more than one candidate allele survives the filter; distinct by hash of the instance description",
             "samples": samples, "stats": dict(stats) | {"constraint_families_hit": dict(families_hit), "regenerated_boundary_or_invalid": skipped}}
 
 
